@@ -374,6 +374,89 @@ def run(loader, R, tier):
                            else "a " + level, key))
     R.floor("nodes printed through a replacement expression", len(seen6), 10)
 
+    # ---------------------------------------------------------------- R15.8
+    # the same question for handlers that write the text themselves: a
+    # code-printer handler of a class for which Precedence reports Atom
+    # assigns str_ from a concatenation of literals; the concatenated text
+    # (other pieces stand for an atom) must not contain an infix operator
+    # outside parentheses -- the parent prints it unparenthesised after `/`
+    # or `*`.
+    R.rule("R15.8", "text written for an Atom-precedence node has no infix "
+                    "operator outside parentheses")
+
+    def texts(e, depth=0):
+        if not isinstance(e, dict) or depth > 40:
+            return ["X"]
+        k = e.get("k")
+        if k == "lit" and isinstance(e.get("v"), str) \
+                and ((e.get("t") or "") == "str"
+                     or "char" in (e.get("t") or "")):
+            return [e["v"]]
+        if k == "?:":
+            return (texts(e["a"][1], depth + 1)
+                    + texts(e["a"][2], depth + 1))[:64]
+        if k == "op" and e.get("op") == "+" and len(e.get("a", ())) == 2:
+            L = texts(e["a"][0], depth + 1)
+            Rr = texts(e["a"][1], depth + 1)
+            return [x + y for x in L for y in Rr][:64]
+        if k in ("cast", "ctor", "op", "un", "bind", "tmp") \
+                and len(e.get("a", ())) == 1:
+            return texts(e["a"][0], depth + 1)
+        return ["X"]
+
+    def bare_operator(t):
+        t = t.strip().strip('"')
+        d = 0
+        for i, ch in enumerate(t):
+            if ch in "([{":
+                d += 1
+            elif ch in ")]}":
+                d -= 1
+            elif d == 0 and i > 0 and ch in "+-*/%<>=&|?:" \
+                    and not (ch in "+-" and t[i - 1] in "eE"
+                             and i >= 2 and t[i - 2].isdigit()):
+                return ch
+        return None
+    n8 = 0
+    for u, f in sorted(prog.functions.items(), key=lambda kv: kv[1]["qn"]):
+        if f.get("dependent") or f["n"] != "bvisit" or not f.get("body") \
+                or len(f.get("params", ())) != 1:
+            continue
+        cls = f.get("cls") or ""
+        if not any(prog.derives(cls, p) for p in FAMILY):
+            continue
+        X = strip_type(f["params"][0]["t"])
+        ph = prog.functions.get(V.handlers(PREC).get(X))
+        if ph is None or strip_type(ph["params"][0]["t"]) \
+                != "SymEngine::Basic":
+            continue            # Precedence computes something for it
+        for n in walk(f["body"]):
+            if not (n.get("k") == "op" and n.get("op") == "="
+                    and len(n.get("a", ())) == 2
+                    and n["a"][0].get("k") == "mem"
+                    and n["a"][0].get("m") == "str_"):
+                continue
+            alts = texts(n["a"][1])
+            if all(t == "X" for t in alts):
+                continue
+            n8 += 1
+            key = "%s(%s)@%s" % (short(cls), short(X), n.get("l"))
+            R.instance("R15.8", key, sample={"texts": alts[:3]})
+            for t in alts:
+                op = bare_operator(t)
+                if op:
+                    R.violation(
+                        "R15.8", "%s(%s)" % (short(cls), short(X)),
+                        prog.loc(f, n.get("l")),
+                        "%s::bvisit(%s) writes the text `%s` (X = a printed "
+                        "piece) with the infix operator `%s` outside "
+                        "parentheses, while Precedence reports Atom for "
+                        "%s: after a `/` or `*` of the parent the generated "
+                        "code computes a different value" % (
+                            short(cls), short(X), t[:50], op, short(X)))
+                    break
+    R.floor("literal texts written for Atom-precedence nodes", n8, 4)
+
     # ---------------------------------------------------------------- R15.7
     from rules.c44 import infix_operands
     infix_operands(prog, R, "R15.7", only=set(PRINTERS))
